@@ -260,7 +260,7 @@ class RandomGen:
                     c = [o for o in c if not would_cut_rmobj(o)]
                 if not c:
                     return None
-                return ('rmobj', rng.choice(c))
+                return ('rmobjx' if rng.random() < 0.1 else 'rmobj', rng.choice(c))
             if kind == 'mvobj':
                 c = [o.id for o in m.objs.values() if o.kind in 'MWP']
                 if not c or len(m.objs) >= pf['max_obj'] + 1:
@@ -358,7 +358,7 @@ class RandomGen:
                 if o in nt:
                     continue
                 if pf['allow_cut'] or not would_cut_rmobj(o):
-                    c.append(('rmobj', o))
+                    c.append(('rmobjx' if rng.random() < 0.06 else 'rmobj', o))
             for s in m.seqs:
                 if pf['allow_cut'] or not would_cut_rmseq(s):
                     c.append(('rmseq', s))
